@@ -209,7 +209,7 @@ func minimise(worker, prop string, sc map[string]interface{}, class, sig string,
 			wg.Wait()
 			evals += end - base
 			for i, v := range results {
-				if v != nil && !v.OK && !v.Invalid && v.Class == class && v.Signature == sig {
+				if sameViolation(v, class, sig) {
 					next := cands[base+i]
 					if v.Scenario != nil {
 						// keep the replay form (tapes) produced by the oracle, but never grow
